@@ -16,6 +16,10 @@ type InstructionRunnerPc struct {
 	Forwarder       chan<- int32
 	Receiver        <-chan int32
 	ForwardRegister RegisterType
+	// ReceiveRegister is the register this instruction receives from Receiver. It
+	// is distinct from ForwardRegister (the register this instruction forwards)
+	// as an instruction can be both a consumer and a producer.
+	ReceiveRegister RegisterType
 }
 
 type Forward struct {
